@@ -10,6 +10,12 @@ CHECKS['C11'] = {'text': 'Serde primitives for ALL int64/int32/int16 values (one
                  'note': 'Bounded byte strings (6-9 bytes; fixed-size headers at full length). Hashes/ids and composite payloads (ATV/VTB/PopData) outside. Trusts own interpreter (validated by native replay), libmodel, clang -O1.'}
 CHECKS['C13'] = {'text': 'The real ValueSortedMap (the mempool in-flight container) is executed over every sequence of 3 (quick) / 4 (thorough) operations with symbolic keys and tie-ranked values; view agreement, ordering and memory safety are decided on every path.',
                  'note': 'Only the container is decided; MemPool maps/relations/cleanUp are outside the claim. Trusts own interpreter, libmodel rb-tree/hashtable stubs (validated natively each run).'}
+CHECKS['C07'] = {'text': 'Every history of 3 (quick) / 4 (thorough) public operations on the real BlockTree<BtcBlock> from every base tree shape is executed symbolically; the structural invariant set is an obligation after each step.',
+                 'note': 'Bounded trees (<=6/7 blocks). ALT/VBK specific logic (acceptBlock/connectBlock, payload index, SP reference counting) is not covered by this harness yet. Trusts own interpreter (validated natively), libmodel, preset hashes.'}
+CHECKS['C08'] = {'text': 'invalidateSubtree/revalidateSubtree of the real BaseBlockTree on every tree shape of 5 (6) blocks with arbitrary earlier marks, optional removeSubtree and ALT-style re-announcement: exact-subtree marking, restoration of flags and tips, best chain never through invalid blocks — decided on every path.',
+                 'note': 'Bounded tree size; BTC instantiation (work-based fork resolution). One known finding (abort on re-announcing the child of a restored FAILED_POP block) is listed in known_findings.txt.'}
+CHECKS['C15'] = {'text': 'acceptBlockHeader of the real BTC tree is compared on every path with an independent implementation of the contextual rules (parent, PoW, prescribed difficulty incl. min-difficulty walk-back, median-time-past, future limit), chain-work accumulation and most-work/first-seen best chain.',
+                 'note': 'Bounded: trees of 3-5 blocks, 8 timestamps, 2 difficulties, 3 symbolic hash bytes, no retarget boundary; VBK rules not covered yet.'}
 _TODO = 'check not built yet in this session (breadth-first build in progress); see DESIGN.md section 4 for the planned encoding'
 NOT_APPLICABLE = {p: _TODO for p in ['C%02d' % i for i in range(1, 21)] if p not in CHECKS}
 for _e in ENGINES:
